@@ -59,6 +59,8 @@ impl GC {
     /// Sweeps all objects
     /// This is automatically called once the Garbage Collector is dropped
     pub fn destroy(&mut self) {
+        // nothing is reachable anymore: start from an all-unmarked bitmap
+        self.reset_marks();
         self.sweep();
     }
 
@@ -70,7 +72,7 @@ impl GC {
             return;
         }
 
-        self.mark_bitmap.clear();
+        self.reset_marks();
 
         // Mark all reachable objects
         for root in roots.iter() {
@@ -83,6 +85,12 @@ impl GC {
         self.sweep();
     }
 
+    /// Resets the bitmap to one unmarked bit for every managed object
+    fn reset_marks(&mut self) {
+        self.mark_bitmap.clear();
+        self.mark_bitmap.resize(self.objects.len(), false);
+    }
+
     /// Sweep all unmarked objects
     pub fn sweep(&mut self) {
         // Sweep in reverse unmarked order to preserve the index as
@@ -93,7 +101,8 @@ impl GC {
             object.free();
         }
 
-        self.mark_bitmap.truncate(self.objects.len());
+        // the marks no longer line up with the objects after removing some
+        self.mark_bitmap.clear();
     }
 
     /// Marks the given object as reachable
@@ -103,33 +112,30 @@ impl GC {
             return;
         }
 
-        let index = unsafe {
-            let object_ptr: *mut Object = o.as_ptr().cast();
-            let universe_ptr: *const Object = self.objects.as_ptr().cast();
-            object_ptr.offset_from(universe_ptr) as usize
+        // The mark bit of an object has the same index as the object has in the list of managed objects
+        // Objects that are not managed by this collector are not ours to mark (or free)
+        let index = match self
+            .objects
+            .iter()
+            .position(|a| std::ptr::eq(a.as_ptr(), o.as_ptr()))
+        {
+            Some(index) => index,
+            None => return,
         };
-        debug_assert!(index < self.objects.len());
+
+        // No need to mark recursively on arrays if this one was
+        // already marked (e.g. because the same object was found
+        // in multiple places such as the stack and the result of
+        // a function call).
+        if self.mark_bitmap[index] {
+            return;
+        }
+        self.mark_bitmap.set(index, true);
 
         if o.tag() == Type::Array {
-            // Safety: we know the size of mark_bitmap.
-            unsafe {
-                // No need to mark recursively on arrays if this one was
-                // already marked (e.g. because the same object was found
-                // in multiple places such as the stack and the result of
-                // a function call).
-                if !self.mark_bitmap.get_unchecked(index) {
-                    self.mark_bitmap.set_unchecked(index, true);
-
-                    // Safety: we already checked the type.
-                    for v in o.as_vec_unchecked() {
-                        self.mark(v);
-                    }
-                }
-            }
-        } else {
-            unsafe {
-                // Safety: we know the size of mark_bitmap.
-                self.mark_bitmap.set_unchecked(index, true);
+            // Safety: we already checked the type.
+            for v in unsafe { o.as_vec_unchecked() } {
+                self.mark(v);
             }
         }
     }
